@@ -98,7 +98,7 @@ class Decorator:
             raise common.MachineryError('skeleton not consumed: %r' % (toks,))
         b.fns[0]['body'] = mp.initial_assignments(b, self.r, self.names, self.init, self.cx, self.objects, self.lists) + body
         p = b.finish()
-        p['keys'] = 1 if (self.objects and self.r.random() < 0.4) else 0
+        p['keys'] = 1 if (self.objects and not p.get('lists') and self.r.random() < 0.4) else 0   # (LISTS is claimed for locals only)
         return p
 
     def _reads_of(self, b, e):
